@@ -51,6 +51,7 @@ struct Case {
     shift: i32, // != 0: also fit on x * 2^shift
     backend: &'static str, // "dense" | "dense32" (f32 elements) | "ndarray_f" | "ndarray_c" | "nalgebra"
     expect: Option<Value>,
+    label_family: &'static str, // how the class labels were chosen (classification)
     entry: &'static str, // "inherent": Type::fit / tree.predict; "trait": SupervisedEstimator::fit / Predictor::predict
 }
 
@@ -312,21 +313,28 @@ fn nodes_json(c: &Case, f: &Fitted, thr: &[i64], thr_ok: &[bool]) -> (Vec<Value>
 }
 
 /// predictions: classification -> exact label integers, regression -> fx16; plus bit signatures
+/// The distinct label values of a classification case in ascending order (distinct by value:
+/// -0.0 and 0.0 are one label, as they are for every comparison the library makes).
+fn label_set(c: &Case) -> Vec<f64> {
+    let mut l: Vec<f64> = c.y.clone();
+    l.sort_by(|a, b| a.partial_cmp(b).unwrap());
+    l.dedup_by(|a, b| a == b);
+    l
+}
+
+/// Order-preserving integer code of a label value: its 1-based position in the label set, or -1
+/// when the value equals none of the labels (labels are arbitrary floats; a code carries all the
+/// specification needs: identity and order).
+fn label_code(set: &[f64], v: f64) -> i64 {
+    set.iter().position(|&l| l == v).map(|i| i as i64 + 1).unwrap_or(-1)
+}
+
+/// predictions: classification -> label codes, regression -> fx16; plus bit signatures
 fn preds_json(c: &Case, p: &[f64]) -> (Vec<i64>, bool, Vec<Value>) {
     if c.kind == "cls" {
-        let mut ok = true;
-        let v: Vec<i64> = p
-            .iter()
-            .map(|&x| match int_exact(x) {
-                Some(i) => i,
-                None => {
-                    ok = false;
-                    0
-                }
-            })
-            .collect();
-        let sig = v.iter().zip(p.iter()).map(|(i, x)| if x.is_finite() { json!([*i]) } else { fbits(*x) }).collect();
-        (v, ok, sig)
+        let set = label_set(c);
+        let v: Vec<i64> = p.iter().map(|&x| label_code(&set, x)).collect();
+        (v, true, p.iter().map(|&x| fbits(x)).collect())
     } else {
         let q = Q::with_limit(FX, 4.0e6);
         let v = q.v(p);
@@ -334,8 +342,14 @@ fn preds_json(c: &Case, p: &[f64]) -> (Vec<i64>, bool, Vec<Value>) {
     }
 }
 
+/// classification: label codes; regression: exact numerators over yden
 fn ynum(c: &Case) -> Vec<i64> {
-    c.y.iter().map(|&v| int_exact(v * c.yden as f64).unwrap_or(-99999)).collect()
+    if c.kind == "cls" {
+        let set = label_set(c);
+        c.y.iter().map(|&v| label_code(&set, v)).collect()
+    } else {
+        c.y.iter().map(|&v| int_exact(v * c.yden as f64).unwrap_or(-99999)).collect()
+    }
 }
 
 fn with(base: &Value, extra: Value) -> Value {
@@ -358,7 +372,8 @@ fn fit_record(c: &Case, scale: f64) -> (&'static str, Option<Value>) {
     let (nodes, sig) = nodes_json(c, &f, &thr, &thr_ok);
     let (pred, pred_ok, psig) = preds_json(c, &f.pred);
     let (predq, predq_ok, qsig) = preds_json(c, &f.predq);
-    let classes: Vec<i64> = f.classes.iter().map(|&v| int_exact(v).unwrap_or(-99999)).collect();
+    let set = if c.kind == "cls" { label_set(c) } else { vec![] };
+    let classes: Vec<i64> = f.classes.iter().map(|&v| label_code(&set, v)).collect();
     (
         "ok",
         Some(json!({"status": "ok", "xkind": xkind, "X": xs, "Q": qs,
@@ -375,7 +390,9 @@ fn case_events(run: i64, c: &Case, out: &mut Out) {
     let head = json!({"run": run, "kind": c.kind, "crit": c.crit, "maxDepth": c.max_depth, "msl": c.msl,
                       "mss": c.mss, "n": n, "p": p, "family": c.family, "backend": c.backend, "entry": c.entry,
                       "prec": if c.backend == "dense32" { "f32" } else { "f64" },
-                      "y": ynum(c), "yden": c.yden, "shift": 0});
+                      "y": ynum(c), "yden": c.yden, "shift": 0,
+                      "labelFamily": c.label_family,
+                      "labelBits": if c.kind == "cls" { label_set(c).iter().map(|&v| fbits(v)).collect::<Vec<Value>>() } else { vec![] }});
     let (status, rec) = fit_record(c, 1.0);
     let rec = match rec {
         Some(r) => r,
@@ -413,14 +430,71 @@ fn case_events(run: i64, c: &Case, out: &mut Out) {
 
 const LABEL_POOL: [i64; 12] = [-40, -7, -3, -1, 0, 1, 2, 5, 11, 17, 100, 1000];
 
-fn pick_labels(r: &mut StdRng, k: usize) -> Vec<f64> {
-    let mut pool: Vec<i64> = LABEL_POOL.to_vec();
-    pool.shuffle(r);
-    let mut l: Vec<i64> = pool[..k].to_vec();
-    if r.gen_bool(0.25) {
-        l = (0..k as i64).collect();
+/// A set of k distinct class labels of one of the label families.  Labels are arbitrary floats;
+/// in single precision they are f32 values (and still pairwise distinct).
+fn pick_labels(r: &mut StdRng, k: usize, f32mode: bool) -> (Vec<f64>, &'static str) {
+    let ints = |r: &mut StdRng| -> Vec<f64> {
+        let mut pool: Vec<i64> = LABEL_POOL.to_vec();
+        pool.shuffle(r);
+        pool[..k].iter().map(|&v| v as f64).collect()
+    };
+    let eps_step = if f32mode { (2.0f64).powi(-30) } else { (2.0f64).powi(-60) };
+    let (mut l, fam): (Vec<f64>, &'static str) = match r.gen_range(0..100) {
+        0..=29 => (ints(r), "integers"),
+        30..=44 => ((0..k).map(|i| i as f64).collect(), "indices"),
+        45..=59 => {
+            // non-integer labels between the integer extremes 0 and k-1
+            let mut v = vec![0.0, (k - 1) as f64];
+            let mut eighths: Vec<i64> = (1..(8 * (k as i64 - 1)).max(2)).filter(|e| e % 8 != 0).collect();
+            eighths.shuffle(r);
+            for e in eighths.iter().take(k.saturating_sub(2)) {
+                v.push(*e as f64 / 8.0);
+            }
+            if k == 2 { v = vec![0.0, 0.5]; }
+            (v, "fractional")
+        }
+        60..=71 => {
+            // labels that collide when truncated / rounded to integers
+            let base = *[0.0f64, -1.0, 1.0, 7.0].choose(r).unwrap();
+            let mut fr: Vec<f64> = vec![0.25, 0.75, 0.5, 0.125, 0.875];
+            fr.shuffle(r);
+            let mut v: Vec<f64> = fr[..k].iter().map(|f| base + f).collect();
+            if base == -1.0 && k >= 2 { v[0] = -0.5; v[1] = 0.5; }
+            (v, "colliding")
+        }
+        72..=83 => {
+            // labels closer to each other than machine epsilon
+            match r.gen_range(0..3) {
+                0 => ((0..k).map(|i| i as f64 * eps_step).collect(), "tiny"),
+                1 => ((0..k).map(|i| if i == 0 { 0.0 } else { 1.0e-17 * i as f64 }).collect(), "tiny"),
+                _ => ((0..k as u64).map(|i| if f32mode { f32::from_bits(1.0f32.to_bits() + i as u32) as f64 } else { ulps(1.0, i) }).collect(), "tiny"),
+            }
+        }
+        84..=93 => {
+            let big = if f32mode { 1.0e30 } else { 1.0e300 };
+            let mut v = vec![-big, big, -3.5e10, 2.0e15 + 1.0, -0.001];
+            v.shuffle(r);
+            (v[..k].to_vec(), "huge")
+        }
+        _ => {
+            // zero as a label (written as 0.0 and as -0.0 by the caller of pick_labels)
+            let mut v = vec![0.0, 1.0, -2.5, 3.0, 0.5];
+            v.truncate(k);
+            (v, "signedzero")
+        }
+    };
+    if f32mode {
+        for v in l.iter_mut() {
+            *v = (*v as f32) as f64;
+        }
     }
-    l.iter().map(|&v| v as f64).collect()
+    let mut chk = l.clone();
+    chk.sort_by(|a, b| a.partial_cmp(b).unwrap());
+    chk.dedup_by(|a, b| a == b);
+    if chk.len() != k || l.iter().any(|v| !v.is_finite()) {
+        return (ints(r), "integers");
+    }
+    (l, fam)
 }
 
 /// feature matrix of one of the value families; returns (x, xden, family tag)
@@ -627,6 +701,7 @@ fn gen_case(r: &mut StdRng, nmax: usize) -> Case {
     let ranks = dense_ranks(&score);
     let top = *ranks.iter().max().unwrap() as f64;
     let (kind, crit, y, yden);
+    let mut label_family: &'static str = "none";
     if reg {
         kind = "reg";
         crit = "mse";
@@ -648,7 +723,8 @@ fn gen_case(r: &mut StdRng, nmax: usize) -> Case {
         crit = *["gini", "entropy", "error"].choose(r).unwrap();
         yden = 1;
         let k = r.gen_range(2..=5usize).min(n);
-        let labels = pick_labels(r, k);
+        let (labels, lf) = pick_labels(r, k, f32mode);
+        label_family = lf;
         let noise = *[0.0, 0.1, 0.3, 1.0].choose(r).unwrap();
         let mut yy: Vec<f64> = (0..n)
             .map(|i| {
@@ -663,6 +739,13 @@ fn gen_case(r: &mut StdRng, nmax: usize) -> Case {
         if yy.iter().all(|&v| v == yy[0]) {
             let other = labels.iter().find(|&&l| l != yy[0]).unwrap();
             yy[n - 1] = *other;
+        }
+        if label_family == "signedzero" {
+            for v in yy.iter_mut() {
+                if *v == 0.0 && r.gen_bool(0.5) {
+                    *v = -0.0;
+                }
+            }
         }
         y = yy;
     }
@@ -682,7 +765,7 @@ fn gen_case(r: &mut StdRng, nmax: usize) -> Case {
     } else {
         0
     };
-    let mut c = Case { kind, crit, max_depth, msl, mss, x, y, q, xden, yden, family: fam.to_string(), shift, backend, expect: None,
+    let mut c = Case { kind, crit, max_depth, msl, mss, x, y, q, xden, yden, family: fam.to_string(), shift, backend, expect: None, label_family,
                         entry: if r.gen_bool(0.3) { "trait" } else { "inherent" } };
     if r.gen_range(0..100) < 5 {
         near_max(r, &mut c);
@@ -745,7 +828,7 @@ fn ladder_cases(r: &mut StdRng, sizes: &[usize]) -> Vec<Case> {
         v.push(Case { kind: if reg { "reg" } else { "cls" }, crit: if reg { "mse" } else { "entropy" }, max_depth: 0,
                       msl: r.gen_range(1..=3), mss: r.gen_range(0..=4), x, y, q, xden: 1, yden: 1,
                       family: "ladder".to_string(), shift: if r.gen_bool(0.5) { 5 } else { 0 },
-                      backend: *["dense", "ndarray_f", "nalgebra"].choose(r).unwrap(), expect: None,
+                      backend: *["dense", "ndarray_f", "nalgebra"].choose(r).unwrap(), expect: None, label_family: "ladder",
                       entry: if r.gen_bool(0.5) { "trait" } else { "inherent" } });
     }
     v
@@ -757,7 +840,7 @@ fn fixed_cases() -> Vec<Case> {
     let mk = |kind: &'static str, crit: &'static str, md: u16, msl: usize, mss: usize, x: Vec<Vec<f64>>, y: Vec<f64>, fam: &str| Case {
         kind, crit, max_depth: md, msl, mss,
         q: vec![x[0].iter().map(|v| v + 0.5).collect(), x[0].iter().map(|v| v - 10.0).collect()],
-        x, y, xden: 1, yden: 1, family: fam.to_string(), shift: 1, backend: "dense", expect: None, entry: "inherent",
+        x, y, xden: 1, yden: 1, family: fam.to_string(), shift: 1, backend: "dense", expect: None, entry: "inherent", label_family: "fixed",
     };
     let col = |a: &[i64]| -> Vec<Vec<f64>> { a.iter().map(|&v| vec![v as f64]).collect() };
     let yv = |a: &[i64]| -> Vec<f64> { a.iter().map(|&v| v as f64).collect() };
@@ -829,6 +912,45 @@ fn fixed_cases() -> Vec<Case> {
                 v.push(c);
             }
         }
+    }
+    // label sets with a special arithmetic shape (labels are arbitrary values, not class indices)
+    {
+        let feats: Vec<Vec<f64>> = [5i64, 1, 8, 3, 9, 0, 6, 2, 7, 4, 11, 10].iter().map(|&a| vec![a as f64, ((a * 5) % 12) as f64]).collect();
+        let sets: Vec<(Vec<f64>, &'static str)> = vec![
+            (vec![0.0, 0.5, 2.0], "fractional"),
+            (vec![0.0, 0.25, 0.75, 3.0], "fractional"),
+            (vec![0.0, 1.5, 2.5, 3.5, 4.0], "fractional"),
+            (vec![0.25, 0.75], "colliding"),
+            (vec![-0.5, 0.5], "colliding"),
+            (vec![0.0, 1.0e-17], "tiny"),
+            (vec![0.0, (2.0f64).powi(-60), (2.0f64).powi(-59)], "tiny"),
+            (vec![1.0, ulps(1.0, 1), ulps(1.0, 2)], "tiny"),
+            (vec![-1.0e300, 1.0e300, 0.001], "huge"),
+            (vec![0.0, 1.0, 2.0], "indices"),
+        ];
+        for (i, (set, fam)) in sets.iter().enumerate() {
+            let k = set.len();
+            let ys: Vec<f64> = (0..12usize).map(|r| set[(r * 7 + r / 3 + i) % k]).collect();
+            for &(crit, backend) in [("gini", "dense"), ("entropy", "nalgebra")].iter() {
+                let mut c = mk("cls", crit, 0, 1, 0, feats.clone(), ys.clone(), "labels");
+                c.label_family = fam;
+                c.backend = backend;
+                v.push(c);
+            }
+        }
+        // 0.0 and -0.0 written for the same class
+        let ys: Vec<f64> = (0..12usize).map(|r| match r % 3 { 0 => if r % 2 == 0 { 0.0 } else { -0.0 }, 1 => 1.0, _ => -2.5 }).collect();
+        let mut c = mk("cls", "gini", 0, 1, 0, feats.clone(), ys, "labels");
+        c.label_family = "signedzero";
+        v.push(c);
+        // more than 256 distinct classes
+        let n = 600usize;
+        let xs: Vec<Vec<f64>> = (0..n).map(|i| vec![((i * 7919) % n) as f64]).collect();
+        let ys: Vec<f64> = (0..n).map(|i| ((((i * 7919) % n) / 2) as f64) * 0.5 - 20.0).collect();
+        let mut c = mk("cls", "gini", 0, 2, 2, xs, ys, "manyclass");
+        c.label_family = "manyclass";
+        c.shift = 0;
+        v.push(c);
     }
     // the other matrix back ends on a non-square set (a layout mix-up cannot go unnoticed)
     for &backend in ["ndarray_f", "ndarray_c", "nalgebra", "dense32"].iter() {
@@ -926,7 +1048,7 @@ fn main() {
                     max_depth: l["maxDepth"].as_u64().unwrap_or(0) as u16,
                     msl: l["msl"].as_u64().unwrap_or(1) as usize,
                     mss: l["mss"].as_u64().unwrap_or(2) as usize,
-                    x, y, q, xden: 1, yden: 1, family: "model".to_string(), shift: 0, backend: "dense", entry: "inherent",
+                    x, y, q, xden: 1, yden: 1, family: "model".to_string(), shift: 0, backend: "dense", entry: "inherent", label_family: "model",
                     expect: Some(l["expect"].clone()),
                 };
                 run += 1;
